@@ -124,7 +124,7 @@ def is_f6(n, o):
         while rest and rest[-1] == 255:
             rest.pop()
         if rest:
-            return rest[-1] == 0x5A
+            return (rest[-1] == 0x5A) and ("ff-run" if len(rest) < len(lab) else "last")
     return False
 
 
@@ -133,7 +133,8 @@ def classify(tr, line, clause):
     e = ev[line - 1] if line and 0 < line <= len(ev) else {}
     op = e.get("op", "?")
     if op == "succ" and clause == "SuccGreater" and e.get("res", ["?"])[0] == "ok" and is_f6(e["n"], e["o"]):
-        return "F6:successor-increments-uppercase-Z:sorts-before"
+        # (F6 as found had both shapes; a regression limited to the octet before a 0xFF run is told apart)
+        return "F6:successor-increments-uppercase-Z:sorts-before" + (":before-ff-run" if is_f6(e["n"], e["o"]) == "ff-run" else "")
     if op == "rel" and clause in ("Relativize", "RelativizeRoundTrip") and e.get("o") == [] and e.get("n") \
             and e["n"][-1] != [] and e.get("rel") == ["ok", []]:
         return "F20:relativize-to-empty-origin:returns-empty-name"
@@ -281,13 +282,13 @@ def run(ctx):
     else:
         # quick: single-worker model runs (one TLC slot each: the machine-wide slot throttle starves
         # multi-worker requests when many checks run at once); they overlap with the validation
-        ex = cf.ThreadPoolExecutor(max_workers=5)
+        ex = cf.ThreadPoolExecutor(max_workers=6)
         # quick: the modes of MC_DnsName_quick.cfg as three single-worker runs side by side
         base = open(os.path.join(tlc.SPECS, "MC_DnsName_quick.cfg")).read()
-        allmodes = 'Modes = {"pair", "mimic", "triple", "neigh", "cons"}'
+        allmodes = 'Modes = {"pair", "mimic", "triple", "neigh", "neigh2", "cons"}'
         assert allmodes in base
         split = [ctx.cfg("mc_%d.cfg" % i, base.replace(allmodes, "Modes = " + m))
-                 for i, m in enumerate(('{"pair", "mimic"}', '{"triple", "cons"}', '{"neigh"}'))]
+                 for i, m in enumerate(('{"pair", "mimic"}', '{"triple", "cons"}', '{"neigh"}', '{"neigh2"}'))]
         if quick:
             mc = [ex.submit(ctx.model, "MC_DnsName", c, workers=1) for c in split]
         else:
@@ -305,13 +306,19 @@ def run(ctx):
     jobmap = {j[0]: j for j in jobs}
     ctx.distinct = set(json.dumps(j[1:], separators=(",", ":")) for j in jobs if nontrivial(j))
     ctx.evaluations = len(traces)
-    rejects = ctx.validate("Trace_DnsName", "Trace_DnsName.cfg", traces)
-    # drift: the exact RFC 4471 neighbour (not demanded by the property)
+    # drift: the exact RFC 4471 neighbour (not demanded by the property), judged by the strict
+    # configuration in a side thread while the hard clauses are validated
+    neigh_traces = [tr for tr in traces if tr["ev"][0].get("op") in ("succ", "pred")]
+    side = cf.ThreadPoolExecutor(max_workers=1)
+    fut = side.submit(ctx.validate, "Trace_DnsName", "Trace_DnsName_strict.cfg", neigh_traces)
+    try:
+        rejects = ctx.validate("Trace_DnsName", "Trace_DnsName.cfg", traces)
+    finally:
+        drift = fut.result()
     rejected = {tr["tid"] for tr, _, _ in rejects}
-    neigh_traces = [tr for tr in traces if tr["ev"][0].get("op") in ("succ", "pred") and tr["tid"] not in rejected]
-    n0 = ctx.traces
-    drift = ctx.validate("Trace_DnsName", "Trace_DnsName_strict.cfg", neigh_traces)
-    ctx.traces = n0
+    drift = [r for r in drift if r[0]["tid"] not in rejected]     # failing a hard clause is not drift
+    neigh_traces = [tr for tr in neigh_traces if tr["tid"] not in rejected]
+    ctx.traces = len(traces)
     ctx.drift = len(drift)
     ctx.extra["drift_detail"] = {"neighbour_not_exact": len(drift), "neighbour_cases": len(neigh_traces)}
     for f in mc:
